@@ -347,6 +347,16 @@ func c04JoinAccept(c *core.Ctx, r *core.RNG, key [16]byte, major byte) {
 	if c.WantSample("joinaccept") {
 		c.Sample("joinaccept", map[string]interface{}{"payload": core.Hex(sj.Payload()), "mic": core.Hex(want[:]), "wire": core.Hex(wire), "optneg": ja.DLSettings.OptNeg})
 	}
+	// decrypting a (shallow) copy of the encrypted frame must not disturb the encrypted original
+	cp := phy
+	c.Eval(2)
+	if p, msg := core.Guard(func() { err = cp.DecryptJoinAcceptPayload(lorawan.AES128Key(encKey)) }); p || err != nil {
+		c.Violate("C04|joinaccept|decrypt-copy-failed", "%v %s", err, short(msg, 200))
+	} else if again, err := phy.MarshalBinary(); err != nil || !bytes.Equal(again, wire) {
+		c.Violate("C04|joinaccept|decrypt-copy-changes-original", "after decrypting a copy of the encrypted frame the original marshals to %x (%v), before: %x", again, err, wire)
+	} else if cj, ok := cp.MACPayload.(*lorawan.JoinAcceptPayload); !ok || joinAcceptMatchesBytes(cj, sj.Payload()) != "" || cp.MIC != mic {
+		c.Violate("C04|joinaccept|decrypt-copy-differs", "decrypting the frame Encrypt produced (without a marshal round trip) gives a different payload")
+	}
 	// library decrypt (right key) and validate
 	var rx lorawan.PHYPayload
 	c.Eval(1)
